@@ -3,7 +3,8 @@
    The consumer of `adlt remote`'s pipeline (parser -> lifecycle detection [-> plugins -> sort] -> connection thread) is the
    websocket client.  One case = one server process: a file is opened, the pipeline runs (for the *parked* shapes until it
    is back-pressured: more messages than the bounded channels hold, nobody taking them), then the client vanishes WITHOUT
-   `close` (socket shut down, no websocket close frame; optionally in the middle of a frame).
+   `close` (socket shut down, no websocket close frame; optionally in the middle of a frame) - or, shape close_parked, leaves
+   in the orderly way with `close` while the pipeline is back-pressured (close_ok: the command was answered with ok).
 
    trace lines (ndjson):
      {"ev":"reset","case":n,"hdr":{"kind":"remote_drop","shape":s,"file_msgs":m,"channel_capacity":c,...}}
@@ -42,6 +43,7 @@ Reset == /\ Ev("reset") /\ case' = Cur.case /\ phase' = "running" /\ hl' = l
 Census == /\ Ev("census") /\ phase = "running" /\ Rec[hl].hdr.kind = "remote_drop"
           /\ Cur.threads_before >= 1
           /\ Cur.threads_after = Cur.threads_before          \* every thread that served the vanished client has ended
+          /\ Cur.close_ok                                     \* (shape close_parked: the `close` command was answered with ok)
           /\ phase' = "counted" /\ UNCHANGED <<case, viol, hl>>
 Reopen == /\ Ev("reopen") /\ phase = "counted" /\ Rec[hl].hdr.kind = "remote_drop" /\ Cur.ok
           /\ phase' = "served" /\ UNCHANGED <<case, viol, hl>>
